@@ -52,6 +52,7 @@ class SpecEval:
         if n.id in self.old.loc: return self.old.loc[n.id]
         if n.id in self.eng.reg.consts: return self.eng.const(self.eng.reg.consts[n.id])
         if n.id == "null": return SV(NULL, NONE)
+        if n.id in self.eng.reg.globals: return self.eng.global_obj(n.id)
         raise SpecError("unbound name in spec: %s" % n.id)
 
     def t_Attribute(self, n):
